@@ -92,7 +92,7 @@ pub fn config_pool(seed: u64, count: usize, max_width: usize) -> Vec<Config> {
 pub fn run_parts(ctx: &mut Ctx, prop: &'static str) {
     let known = ctx.known.clone();
     // ---- part 1: random table models -------------------------------------
-    let cases = ctx.tier.pick(40_000, 1_000_000);
+    let cases = ctx.tier.pick(120_000, 1_500_000);
     let strat = solve_case_strategy(GenParams::default_small(), ConfigGen { max_width: 4, ..Default::default() });
     ctx.pt_run("table-random", cases, strat, |c| serde_json::to_value(c).unwrap(), |c, obs| eval(c, obs, &known, prop));
     // ---- part 2: bounded exhaustive sub-space (strided in the quick tier) --
@@ -114,7 +114,7 @@ pub fn run_parts(ctx: &mut Ctx, prop: &'static str) {
         idx += step;
     }
     // ---- part 3: knapsack, set packing (dynamic order), common subsequence (long arcs) -------
-    let cases = ctx.tier.pick(15_000, 400_000);
+    let cases = ctx.tier.pick(40_000, 500_000);
     let strat = crate::families::fam_case_strategy(vec![0, 1, 2], vec![DdKind::Lel, DdKind::Frontier, DdKind::Pooled], false);
     ctx.pt_run("families", cases, strat, |c| serde_json::to_value(c).unwrap(), |c, obs| crate::props::fam::eval_family(c, obs, prop));
     ctx.stats.exhaustive.insert("table-exhaustive: all 3^12 transition tables (n=3,B=2,nd=2) x 3 cost tables, one rotating configuration each".into(), stride == 1);
